@@ -23,6 +23,7 @@ structure Config where
   storeInMemory : Bool := false
   strict : Bool := true
   givenSize : Option Nat := none      -- file_size argument (0 / None = not given)
+  givenWalSize : Option Nat := none
   frames : Nat := 900                 -- Python stack frames available at Database.__init__
   deriving Repr, Inhabited
 
@@ -181,7 +182,22 @@ structure Database where
   updatedBTreePages : List Nat
   deriving Repr, Inhabited
 
-/-- `FileHandle.__init__` (DATABASE) + `Database.__init__` up to the store_in_memory branch -/
+/-- `Version.pages` (no cache): union keyed by page number, then the two census checks.
+Returns the dictionary as an insertion-ordered association list (page number, class). -/
+def pagesCensus (db : Database) (v : VersionIf) (frames : Nat) : Py (List (Nat × String)) := do
+  let put := fun (d : List (Nat × String)) (k : Nat) (s : String) => dictInsert d k s
+  let d := db.freelist.foldl (fun d t =>
+      t.leaves.foldl (fun d l => put d l "FREELIST_LEAF") (put d t.number "FREELIST_TRUNK")) []
+  let d := db.ptrmap.foldl (fun d p => put d p.number "POINTER_MAP") d
+  let d := db.schema.pages.foldl (fun d pn => put d pn.1 pn.2) d
+  let d ← db.schema.rootNumbers.foldlM (fun d r => do
+      let t ← getBTreeRoot v frames r
+      pure ((treePageNumbers t).foldl (fun d pn => put d pn.1 pn.2) d)) d
+  if ¬ db.dbSize.exact ∨ d.length ≠ db.dbSize.floor then .error .parseError
+  else if (List.range db.dbSize.floor).any (fun i => ¬ d.any (·.1 = i + 1)) then .error .parseError
+  else pure d
+
+/-- `FileHandle.__init__` (DATABASE) + `Database.__init__` -/
 def openDatabase (cfg : Config) (file : Buf) : Py (Database × VersionIf) := do
   let fsize := match cfg.givenSize with
     | some 0 => file.size
@@ -219,21 +235,10 @@ def openDatabase (cfg : Config) (file : Buf) : Py (Database × VersionIf) := do
       let updated ← ms.pages.foldlM (fun u pn => listRemove u pn.1) updated
       if ms.entries.isEmpty ∧ (hdr.schemaFormat ≠ 0 ∨ hdr.textEncoding ≠ 0) then .error .parseError
       else
-        pure (⟨hdr, ps, dsize, hdr.textEncoding, fl, flNums, pm, rootTree, ms, updated⟩, v)
-
-/-- `Version.pages` (no cache): union keyed by page number, then the two census checks.
-Returns the dictionary as an insertion-ordered association list (page number, class). -/
-def pagesCensus (db : Database) (v : VersionIf) (frames : Nat) : Py (List (Nat × String)) := do
-  let put := fun (d : List (Nat × String)) (k : Nat) (s : String) => dictInsert d k s
-  let d := db.freelist.foldl (fun d t =>
-      t.leaves.foldl (fun d l => put d l "FREELIST_LEAF") (put d t.number "FREELIST_TRUNK")) []
-  let d := db.ptrmap.foldl (fun d p => put d p.number "POINTER_MAP") d
-  let d := db.schema.pages.foldl (fun d pn => put d pn.1 pn.2) d
-  let d ← db.schema.rootNumbers.foldlM (fun d r => do
-      let t ← getBTreeRoot v frames r
-      pure ((treePageNumbers t).foldl (fun d pn => put d pn.1 pn.2) d)) d
-  if ¬ db.dbSize.exact ∨ d.length ≠ db.dbSize.floor then .error .parseError
-  else if (List.range db.dbSize.floor).any (fun i => ¬ d.any (·.1 = i + 1)) then .error .parseError
-  else pure d
+        let db : Database := ⟨hdr, ps, dsize, hdr.textEncoding, fl, flNums, pm, rootTree, ms, updated⟩
+        if cfg.storeInMemory then do
+          let _ ← pagesCensus db v cfg.frames
+          pure (db, v)
+        else pure (db, v)
 
 end SqliteDissect.Model
